@@ -288,6 +288,10 @@ class Ctx:
             name, args = v
             cls = self.classes[name]
             return cls[tuple(self.ty(a) for a in args)] if args else cls
+        if k == 'resub':
+            # a subscripted generic dataclass subscripted AGAIN (`P[List[V], W][T, int]`)
+            inner, args = v
+            return self.ty(inner)[tuple(self.ty(a) for a in args)]
         if k == 'ann':
             inner, anns = v
             return t.Annotated[(self.ty(inner), *[self.ann(a) for a in anns])]
